@@ -40,6 +40,10 @@ func runC14(c *Ctx) error {
 	for i := 0; i < c.Pick(6, 200); i++ {
 		cases = append(cases, c14Case{Class: "barrier", Window: 50 * time.Millisecond, Goroutines: 32, Keys: 40, Rounds: 0, Decorator: i%2 == 1})
 	}
+	for i := 0; i < c.Pick(2, 20); i++ {
+		cases = append(cases, c14Case{Class: "decorator-overlap", Window: 50 * time.Millisecond, Keys: 3, Decorator: true})
+		cases = append(cases, c14Case{Class: "refresh", Window: 60 * time.Millisecond, Decorator: i%2 == 1})
+	}
 	// a key presented again in the last fraction of its window must still be suppressed
 	for _, w := range []time.Duration{time.Millisecond, 2 * time.Millisecond, 3 * time.Millisecond, 5 * time.Millisecond} {
 		for i := 0; i < c.Pick(6, 100); i++ {
@@ -81,9 +85,15 @@ func c14Run(r *tr.Run, cs c14Case, rng *rand.Rand) {
 		return []*message.Message{message.NewMessage("out", nil)}, nil
 	})
 	inner := scripted.NewPub("inner")
+	var beforeRead func(n int) // (decorator-overlap: the first inner call is held before it looks at its messages)
 	inner.Fn = func(n int, topic string, msgs []*message.Message) error {
+		if beforeRead != nil {
+			beforeRead(n)
+		}
 		for _, m := range msgs {
-			invoked.Store(m.UUID, true)
+			if _, twice := invoked.LoadOrStore(m.UUID, true); twice {
+				r.Emit("twice", "what", "the inner publisher was handed the same message more than once")
+			}
 		}
 		return nil
 	}
@@ -121,6 +131,42 @@ func c14Run(r *tr.Run, cs c14Case, rng *rand.Rand) {
 		r.Emit("ret", "g", g, "key", key, "t0", a, "t1", b, "dup", dup, "invoked", inv, "acked", acked || !dup)
 	}
 	switch {
+	case cs.Class == "decorator-overlap":
+		// two Publish calls through one decorator are in flight at once: the first is held inside the inner publisher
+		// while the second runs to completion; each inner call must still see its own message
+		for k := 0; k < cs.Keys; k++ {
+			entered, gate := make(chan struct{}, 1), make(chan struct{})
+			held := false
+			var hmu sync.Mutex
+			beforeRead = func(int) {
+				hmu.Lock()
+				first := !held
+				held = true
+				hmu.Unlock()
+				if first {
+					entered <- struct{}{}
+					<-gate
+				}
+			}
+			done := make(chan struct{})
+			go func() { defer close(done); present("g1", fmt.Sprintf("oa%d", k)) }()
+			select {
+			case <-entered:
+				present("g2", fmt.Sprintf("ob%d", k))
+			case <-time.After(HangBound):
+				r.Emit("hung", "what", "inner publisher not reached")
+			}
+			close(gate)
+			<-done
+		}
+	case cs.Class == "refresh":
+		// one key presented again and again, faster than the window, for much longer than the window:
+		// it has to be let through again once its window is over (sightings of duplicates do not prolong it)
+		stop := time.Now().Add(cs.Window*3/2 + 600*time.Millisecond)
+		for time.Now().Before(stop) {
+			present("g0", "same")
+			time.Sleep(cs.Window / 12)
+		}
 	case cs.EdgeTrials > 0:
 		for i := 0; i < cs.EdgeTrials; i++ {
 			key := fmt.Sprintf("e%d", i)
